@@ -465,7 +465,79 @@ fn mutations(toks: &[Tok], with_non_utf8: bool) -> Vec<(String, Vec<Tok>)> {
             out.push((format!("replace#{}:{}", i, j), d));
         }
     }
+    // structural mutations: adjacent transposition, duplication, insertion of a vocabulary token
+    for i in 0..toks.len() {
+        if i + 1 < toks.len() && toks[i] != toks[i + 1] {
+            let mut d = toks.to_vec();
+            d.swap(i, i + 1);
+            out.push((format!("swap#{}", i), d));
+        }
+        let mut d = toks.to_vec();
+        d.insert(i, toks[i].clone());
+        out.push((format!("duplicate#{}", i), d));
+    }
+    for i in 0..=toks.len() {
+        for (j, w) in ["PEER", "CONFIG", "MIGRATING", "IMPORTING", "1", "0-1", "h9:1", "MASTER", "REPLICA"].iter().enumerate() {
+            let mut d = toks.to_vec();
+            d.insert(i, w.as_bytes().to_vec());
+            out.push((format!("insert#{}:{}", i, j), d));
+        }
+    }
     out
+}
+
+/// Every token sequence `prefix ++ w` with `w` of length <= maxlen over `vocab`, judged by the
+/// reference parser against the real one (the token-level analogue of "all strings up to a length").
+fn vocab_sweep<T: PartialEq + std::fmt::Debug + Send + 'static>(
+    what: &'static str,
+    prefix: Vec<Tok>,
+    vocab: &'static [&'static str],
+    maxlen: usize,
+    reference: fn(&[Tok]) -> Result<T, &'static str>,
+    real: fn(&[Tok]) -> Result<T, String>,
+    acc: &mut Acc,
+) -> usize {
+    fn rec<T: PartialEq + std::fmt::Debug>(cur: &mut Vec<Tok>, left: usize, vocab: &[&str], what: &str, reference: fn(&[Tok]) -> Result<T, &'static str>, real: fn(&[Tok]) -> Result<T, String>, acc: &mut Acc, n: &mut usize) {
+        *n += 1;
+        judge(acc, what, "token-sequence", cur, reference(cur), real(cur));
+        if left == 0 {
+            return;
+        }
+        for w in vocab {
+            cur.push(w.as_bytes().to_vec());
+            rec(cur, left - 1, vocab, what, reference, real, acc, n);
+            cur.pop();
+        }
+    }
+    let mut total = 1;
+    judge(acc, what, "token-sequence", &prefix, reference(&prefix), real(&prefix));
+    if maxlen == 0 {
+        return total;
+    }
+    let hs: Vec<_> = vocab
+        .iter()
+        .map(|w| {
+            let mut cur = prefix.clone();
+            cur.push(w.as_bytes().to_vec());
+            std::thread::spawn(move || {
+                let mut a = Acc { viol: vec![], evals: 0, accepted_valid: 0, rejected: 0 };
+                let mut n = 0usize;
+                rec(&mut cur, maxlen - 1, vocab, what, reference, real, &mut a, &mut n);
+                (a, n)
+            })
+        })
+        .collect();
+    for h in hs {
+        let (a, n) = h.join().expect("vocab sweep worker");
+        total += n;
+        acc.evals += a.evals;
+        acc.accepted_valid += a.accepted_valid;
+        acc.rejected += a.rejected;
+        for v in a.viol {
+            acc.add(v.key, v.desc, v.replay);
+        }
+    }
+    total
 }
 
 struct Acc {
@@ -775,14 +847,74 @@ pub fn run(cli: &Cli) -> (Value, Vec<Violation>) {
             }
         }
     }
+    // ---- every short token sequence over a vocabulary (token-level analogue of "all strings")
+    let lvl = cli.level().min(2);
+    let mut token_sequences = 0usize;
+    {
+        static V_CLUSTER: [&str; 11] = ["h1:6000", "1", "2", "0-5", "7-7", "MIGRATING", "IMPORTING", "PEER", "CONFIG", "pa:7000", "migration_scan_count"];
+        static V_REPL: [&str; 8] = ["MASTER", "REPLICA", "c1", "h1:6000", "0", "1", "2", "h2:7000"];
+        static V_TASK: [&str; 8] = ["c1", "MIGRATING", "IMPORTING", "1", "2", "0-5", "7-7", "pa:7000"];
+        let t = |v: &[&str]| v.iter().map(|s| s.as_bytes().to_vec()).collect::<Vec<Tok>>();
+        token_sequences += vocab_sweep("setcluster", t(&["v2", "1", "NOFLAG", "c1"]), &V_CLUSTER, [4, 6, 7][lvl], ref_setcluster, real_setcluster, &mut acc);
+        token_sequences += vocab_sweep("setcluster", t(&["v2", "1", "NOFLAG", "c1", "h1:6000", "MIGRATING", "1", "0-5"]), &V_CLUSTER, [4, 6, 7][lvl], ref_setcluster, real_setcluster, &mut acc);
+        token_sequences += vocab_sweep("setcluster", t(&["v2", "1", "FORCE", "c1", "h1:6000", "1", "0-5", "PEER", "h2:6000", "IMPORTING", "1", "7-7"]), &V_CLUSTER, [4, 6, 7][lvl], ref_setcluster, real_setcluster, &mut acc);
+        token_sequences += vocab_sweep("setrepl", t(&["5", "NOFLAG"]), &V_REPL, [5, 7, 8][lvl], ref_setrepl, real_setrepl, &mut acc);
+        token_sequences += vocab_sweep("task", vec![], &V_TASK, [5, 7, 8][lvl], ref_task, real_task, &mut acc);
+        token_sequences += vocab_sweep("task", t(&["c1", "MIGRATING"]), &V_TASK, [5, 7, 8][lvl], ref_task, real_task, &mut acc);
+        token_sequences += vocab_sweep("task", t(&["c1", "IMPORTING", "2", "0-5"]), &V_TASK, [5, 7, 8][lvl], ref_task, real_task, &mut acc);
+    }
+    // ---- pairs of token mutations (deepest level): every mutation of every single-token mutant
+    let mut mutated_pairs = 0usize;
+    if lvl >= 2 {
+        for (li, local) in locals.iter().enumerate() {
+            for (pi, peer) in peers.iter().enumerate() {
+                if (li * 31 + pi) % 11 != 0 {
+                    continue;
+                }
+                let v = ProxyClusterMeta::new(100 + li as u64, ClusterMapFlags { force: false, compress: false }, ClusterName::try_from("c1").unwrap(), local.clone(), peer.clone(), ClusterConfig::default());
+                let plain = s2t(&v.to_args());
+                let ci = plain.iter().position(|t| t.eq_ignore_ascii_case(b"CONFIG")).unwrap_or(plain.len());
+                let plain = plain[..ci].to_vec();
+                if plain.len() > 22 {
+                    continue;
+                }
+                for (n1, m1) in mutations(&plain, false) {
+                    for (n2, m2) in mutations(&m1, false) {
+                        mutated_pairs += 1;
+                        judge(&mut acc, "setcluster", &format!("{}+{}", n1, n2), &m2, ref_setcluster(&m2), real_setcluster(&m2));
+                    }
+                }
+            }
+        }
+        for (mi, ms) in master_sets.iter().enumerate() {
+            for (ri, rs) in replica_sets.iter().enumerate() {
+                if (mi * 7 + ri) % 13 != 0 {
+                    continue;
+                }
+                let v = ReplicatorMeta { epoch: 5, flags: ClusterMapFlags { force: false, compress: false }, masters: ms.clone(), replicas: rs.clone() };
+                let toks = s2t(&encode_repl_meta(v));
+                if toks.len() > 22 {
+                    continue;
+                }
+                for (n1, m1) in mutations(&toks, false) {
+                    for (n2, m2) in mutations(&m1, false) {
+                        mutated_pairs += 1;
+                        judge(&mut acc, "setrepl", &format!("{}+{}", n1, n2), &m2, ref_setrepl(&m2), real_setrepl(&m2));
+                    }
+                }
+            }
+        }
+    }
     if samples.is_empty() {
         samples.push(json!("none"));
     }
     let cov = json!({
         "evaluations": acc.evals,
-        "distinct_nontrivial": values + mutated,
+        "token_sequences_over_vocabulary": token_sequences,
+        "mutation_pairs": mutated_pairs,
+        "distinct_nontrivial": values + mutated + token_sequences + mutated_pairs,
         "config_order_cases": config_cases,
-        "rule": "CONFIG family: 96 cluster configs (strategy x max_migration_time x max_blocking_time x scan interval/count, small / default / huge) x every order of the key/value pairs of the plain CONFIG section (a sample of the 120 orders in the lowest tier) + the compressed form; values: generated ProxyClusterMeta (0-2 local nodes x 0-2 peers x slot-range menus incl. multi-range lists and both tags x configs x force), ReplicatorMeta (0-2 masters/replicas x 0-2 peers), MigrationTaskMeta; each encoded by the real encoder; mutated encodings: every single-token deletion, truncation at every token, 6-7 replacements per token, 64 single-character corruptions of each compressed payload; all distinct by construction",
+        "rule": "CONFIG family: 96 cluster configs (strategy x max_migration_time x max_blocking_time x scan interval/count, small / default / huge) x every order of the key/value pairs of the plain CONFIG section (a sample of the 120 orders in the lowest tier) + the compressed form; values: generated ProxyClusterMeta (0-2 local nodes x 0-2 peers x slot-range menus incl. multi-range lists and both tags x configs x force), ReplicatorMeta (0-2 masters/replicas x 0-2 peers), MigrationTaskMeta; each encoded by the real encoder; mutated encodings: every single-token deletion, truncation at every token, 6-7 replacements per token, adjacent transpositions, duplications, insertion of each of 9 keyword/number/address tokens at every position, (deepest level) every pair of such mutations on the short encodings; every token sequence of bounded length over a vocabulary of 8-11 tokens behind 7 fixed prefixes (all judged by the strict reference parsers); 64 single-character corruptions of each compressed payload; all distinct by construction",
         "values": values,
         "mutated_encodings": mutated,
         "mutants_still_valid_and_parsed_identically": acc.accepted_valid,
